@@ -1,4 +1,5 @@
 import GroupbyVerif.Props.C04
+import GroupbyVerif.Props.C03
 import GroupbyVerif.Props.C08
 import GroupbyVerif.Props.C09
 
@@ -149,5 +150,97 @@ theorem rolling_shift_diff_mask_eq_filter (op : RollOp) (hop : op = .shift ∨ o
 
 /-- non-vacuity -/
 example : rankSel [⟨0, .num 1, true⟩, ⟨0, .num 5, false⟩, ⟨0, .num 2, true⟩] 2 = 1 := by decide
+
+/-! ### stated about the translated source
+
+`Generated.Loops.group_by_reduce` / `cumulative_reduce` are regenerated from `numba.py` on every run.  The statements
+below relate two runs of the *translated source*: the masked run and the run on the filtered rows. -/
+
+/-- one run of the translated `_group_by_reduce` through an indexer (what a positional mask, or a boolean mask after
+`nonzero`, becomes) -/
+def srcRunIdx (kn : Kernel) (k : Kind) (n : Nat) (b : List Row) (ps : List Int) : ((Int → Val) × (Int → Int)) × Bool :=
+  Generated.Loops.group_by_reduce k (b.map (·.1)).length (arrOf (b.map (·.1)) 0) (b.map (·.2)).length
+    (arrOf (b.map (·.2)) .nan) n (fun _ => kn.init k) (kn.red generatedReducers k) true ps true
+
+/-- **positional mask = filtering first (translated source)**: for every list of positions that index the rows
+(repeats and negative positions allowed) the translated kernel run through the indexer gives, at every group, what
+the translated kernel gives on the selected rows `rows[positions]` - and raises no bounds error -/
+theorem source_positions_eq_filter (kn : Kernel) (k : Kind) (n : Nat) (rows : List Row) (ps : List Int) (sel : List Row)
+    (hsel : takePositions rows ps = some sel) (g : Int) (hg : 0 ≤ g) :
+    let r := srcRunIdx kn k n rows ps
+    let q := C03.srcRun kn k n sel
+    r.2 = false ∧ (r.1.1 g, r.1.2 g) = (q.1 g, q.2 g) := by
+  intro r q
+  have h := C04.source_kernel_indexer_eq_def kn k (rows.map (·.1)) (rows.map (·.2)) (by simp) n ps sel
+    (by rw [C03.zip_fst_snd]; exact hsel) g hg
+  have h2 := C03.srcRun_eq kn k n sel g hg
+  show (srcRunIdx kn k n rows ps).2 = false ∧ ((srcRunIdx kn k n rows ps).1.1 g, (srcRunIdx kn k n rows ps).1.2 g)
+    = ((C03.srcRun kn k n sel).1 g, (C03.srcRun kn k n sel).2 g)
+  rw [h2, C04.kernel_eq_def _ _ _ _ hg]
+  exact h
+
+/-- **boolean mask = filtering first (translated source)**: the indexer is `nonzero(mask)` -/
+theorem source_bool_mask_eq_filter (kn : Kernel) (k : Kind) (n : Nat) (rows : List Row) (m : List Bool)
+    (hm : m.length = rows.length) (g : Int) (hg : 0 ≤ g) :
+    let r := srcRunIdx kn k n rows ((nonzero m).map Int.ofNat)
+    let q := C03.srcRun kn k n (selectBool rows m)
+    r.2 = false ∧ (r.1.1 g, r.1.2 g) = (q.1 g, q.2 g) :=
+  source_positions_eq_filter kn k n rows _ _ (takePositions_nonzero rows m hm) g hg
+
+/-- non-vacuity: a boolean mask dropping a row of each group, sum -/
+example :
+    let rows : List Row := [(0, .num 3), (1, .num 5), (0, .num 4), (1, .num 7)]
+    let r := srcRunIdx .sum .f 2 rows ((nonzero [true, false, true, true]).map Int.ofNat)
+    (r.1.1 0, r.1.1 1, r.2) = (.num 7, .num 7, false) := by unfold srcRunIdx; decide
+
+/-- the translated `_cumulative_reduce` on a list of rows with their selection flags (one chunk of values) -/
+def srcCum (op : CumOp) (k : Kind) (ng : Int) (rows : List CRow) : ((Int → Val) × Bool) × Bool :=
+  Generated.Loops.cumulative_reduce k (rows.map (·.code)).length (arrOf (rows.map (·.code)) 0)
+    [rows.map (·.val)] (op.red generatedReducers k true) ng (rows.map (·.code)).length (fun _ => op.init k) true
+    (rows.map (·.sel)).length (arrOf (rows.map (·.sel)) true)
+
+theorem cumRows_of_rows (rows : List CRow) :
+    LoopBridge.cumRows (rows.map (·.code)) (rows.map (·.val)) true (rows.map (·.sel)) = rows := by
+  unfold LoopBridge.cumRows
+  apply List.ext_getElem?
+  intro i
+  rw [List.getElem?_map, List.length_map]
+  by_cases hi : i < rows.length
+  · rw [List.getElem?_range hi, List.getElem?_eq_getElem hi]
+    simp only [Option.map_some, List.getD_eq_getElem?_getD, List.getElem?_map, List.getElem?_eq_getElem hi,
+      Option.getD_some, Bool.true_and, Bool.not_not]
+  · rw [List.getElem?_eq_none_iff.mpr (by simpa using hi), List.getElem?_eq_none_iff.mpr (by omega)]
+    rfl
+
+/-- every cell of the translated cumulative loop is the model's output (one chunk, mask given) -/
+theorem srcCum_eq (op : CumOp) (k : Kind) (ng : Int) (rows : List CRow) (hn : (rows.length : Int) < 2 ^ 32)
+    (j : Nat) (hj : j < rows.length) :
+    (srcCum op k ng rows).1.1 (j : Int)
+      = LoopBridge.outAt (op.init k) (cumulativeReduce (op.red modelReducers k true) (op.init k) rows) j := by
+  have h := C08.source_loop_eq_spec op k (rows.map (·.code)) [rows.map (·.val)] (rows.map (·.sel)) true ng
+    ((rows.map (·.sel)).length : Int) (by simp) (by simpa using hn)
+  simp only [List.flatten_cons, List.flatten_nil, List.append_nil, cumRows_of_rows] at h
+  rw [C08.cum_eq_prefix]
+  unfold srcCum
+  exact h.2.2 j (by simpa using hj)
+
+/-- **cumulative operations, mask = filtering first (translated source)**: at every selected row the masked run of
+the translated loop writes what the run on the filtered rows writes at the row's rank -/
+theorem source_cum_mask_eq_filter (op : CumOp) (k : Kind) (ng : Int) (rows : List CRow)
+    (hn : (rows.length : Int) < 2 ^ 32) (i : Nat) (r : CRow) (hi : rows[i]? = some r) (hs : r.sel = true) :
+    (srcCum op k ng rows).1.1 (i : Int) = (srcCum op k ng (filterSel rows)).1.1 (rankSel rows i : Int) := by
+  have hlt : i < rows.length := by
+    rcases Nat.lt_or_ge i rows.length with h | h
+    · exact h
+    · rw [List.getElem?_eq_none_iff.mpr h] at hi; simp at hi
+  obtain ⟨hf, _⟩ := filtered_at_rank rows i r hi hs
+  have hlt' : rankSel rows i < (filterSel rows).length := by
+    rcases Nat.lt_or_ge (rankSel rows i) (filterSel rows).length with h | h
+    · exact h
+    · rw [List.getElem?_eq_none_iff.mpr h] at hf; simp at hf
+  have hle : (filterSel rows).length ≤ rows.length := List.length_filter_le _ _
+  rw [srcCum_eq op k ng rows hn i hlt, srcCum_eq op k ng (filterSel rows) (by omega) _ hlt']
+  unfold LoopBridge.outAt
+  rw [cum_mask_eq_filter op k rows i r hi hs]
 
 end GV.C05
